@@ -410,6 +410,10 @@ def mpp_judge(lines, recs, info, hfb):
             if deadline <= r["height"] + 1:
                 bad("PaymentClaimable without a claim window")
             last_claimable = {"amount": amount, "deadline": deadline, "parts": sorted(held), "idx": idx}
+        if t[0] == "part" and held and not r["claimable"] and not (last_claimable and last_claimable.get("live", True)):
+            tot = max(p["total"] for p in held.values())
+            if all(p["good"] for p in held.values()) and sum(p["amt"] for p in held.values()) >= tot and len({p["total"] for p in held.values()}) == 1:
+                bad("the held parts reach the committed total but no PaymentClaimable was generated")
         if t[0] in ("claim", "claimknown"):
             ful = {pid_of(c, h) for (c, h) in r["fulfills"]}
             # all-or-nothing
